@@ -10,7 +10,11 @@ CLAIMED = {
          'other process-level randomness (weights, input example), the script re-issues its configuration calls and '
          'load_state_dict must report no missing/unexpected keys. After every later op and in a final probe (eval and '
          'train outputs, every named cost, summary, exported network structure/weights/outputs) the subject must equal '
-         'the never-crashed reference. A clean batch is evidence, not proof.',
+         'the never-crashed reference. Also generated: crash storms, a script prologue on the fresh wrapper (summary / cost / '
+         'export / no_grad inference before loading), save / load of a checkpoint into the live model, training bursts, '
+         'corner values (threshold masks, huge coefficients, collapsed clip values, ...), aborted forwards. The reference '
+         'replica runs first and is recorded, so the subject cannot reach it through shared state. A clean batch is '
+         'evidence, not proof.',
     note='Trusted: torch (autograd, state_dict, save/load). Restart protocol "config is code, state is data" '
          '(MPS temperature is deliberately not re-issued: the code registers it as a buffer). Volatile in-flight state '
          '(pending grads, autograd graphs on sampled coefficients) is dropped on the reference at a crash too. '
@@ -24,7 +28,9 @@ CLAIMED = {
          'pass and the cost read of one training step or between backward and optimizer step. After every base op '
          'returned values, parameters, gradients, requires_grad and training flags must equal the observer-free '
          'reference; the final probe reads cost and summary before any forward pass; two consecutive exports must be '
-         'structurally identical.',
+         'identical (structure, weights, outputs). Cost reads separated only by calls that cannot change the cost must agree '
+         'on either replica (catches impure-but-idempotent observers). Observer storms, looks at the model right after an '
+         'interrupted forward, user-held specification objects re-used across switches.',
     note='Trusted: torch. The torch RNG is re-seeded before every op on both replicas (RNG consumption by an observer '
          'is not flagged). Buffer-only differences without observable effect are counted, not flagged. An observer '
          'that raises is caught by the simulated loop (whether export succeeds is not this property).',
